@@ -25,9 +25,9 @@ LEVEL_TEXT = ('Tie: the coefficient formula / guard / term count / exponents of 
               '|R_n^m| <= 1 on [-1,1] and hence |Z_j| <= 1 on the unit disk without normalisation for n <= 20 (j <= 231): 2^n R_n^m = sum_t W_t T_t with Chebyshev T_t(cos x) = cos tx and '
               'integer weights W_t >= 0 summing to 2^n, weights and coefficient identity decided exactly by the kernel, the inequality proved. '
               'PARTIAL: the bound and orthonormality are for n <= 20 in the quick tier (n <= 40, all 861 modes, in the thorough tier), not for all n.')
-LEVEL_NOTE = ('Trusted: Lean kernel, float sqrt/cos/sin/atan2 (model run at Float, tolerance 1e-9 x coefficient scale), NumPy semantics of '
-              'np.angle/np.abs/np.max as modelled, generator coverage. Known finding KF-C11-nan-outside-mask: the code multiplies by the mask, so '
-              'non-finite coordinates outside the mask (or a one-sample mask) give NaN instead of 0. Unproven clauses: |Z| <= 1 unnormalised and orthonormality for 20 < n <= 40 only in the thorough tier, for n > 40 not at all '
+LEVEL_NOTE = ('SIGN CONVENTION (of the code, not fixed by the property statement): for odd j with m != 0 the code evaluates sin(m theta) with the NEGATIVE m of zernike_index, i.e. Z_j = -sqrt(2(n+1)) R_n^|m|(rho) sin(|m| theta) — the opposite sign to Noll (1976), e.g. zernike(ones, 3, rho=.5, theta=.3) = -0.2955 where Noll\'s Z3 is +0.2955. The Lean model, the theorems (mode_formula_tie, mode_factorisation) and the harness\'s reference all COPY this sign, so the reference is not independent on this point; orthonormality, the index map and every C12 clause are unaffected by it. Trusted: Lean kernel, float sqrt/cos/sin/atan2 (model run at Float, tolerance 1e-9 x coefficient scale), NumPy semantics of '
+              'np.angle/np.abs/np.max as modelled, generator coverage. Known finding KF-C11-nan-outside-mask (narrowed): a one-sample mask gives rho = 0/0 at its sample; non-finite coordinates outside the mask '
+              'and the empty mask give 0 (the code selects with the mask). Unproven clauses: |Z| <= 1 unnormalised and orthonormality for 20 < n <= 40 only in the thorough tier, for n > 40 not at all '
               '(sampled by the oracle); the float sqrt/ceil row search of zernike_index beyond the sampled range of j.')
 TECHNIQUE = 'Lean 4 proof (omega/induction, Mathlib integrals, decide +kernel exact tables) over translator-regenerated formulas + hand model with differential correspondence'
 GEN = ['ZernikeR', 'Mesh', 'Util', 'Helper', 'Helper20', 'Hex', 'Extent', 'FieldAccum', 'FieldDispatch', 'FieldIdx', 'FieldMerge']      # every Gen module the model, driver and Props import (transitively, through Model/Geometry and Model/Field)
@@ -500,7 +500,6 @@ KF_NAN = 'KF-C11-nan-outside-mask'
 
 def matches_finding(kf, case, msg):
     if kf.get('id') != KF_NAN: return False
-    if case.get('kind') == 'zern' and case.get('bad_outside'): return 'outside the mask' in msg and 'caller coordinates there' in msg
     if case.get('kind') == 'coords' and case.get('one_sample'): return 'one-sample mask' in msg
     return False
 
